@@ -51,14 +51,14 @@ theorem runItems_others {σ ρ : Type} (d : SeqDesc) (timeout : Nat) (step : σ 
 /-- the handshake touches no slot that existed before it. -/
 theorem connect_old_slots (cfg : Cfg) (w : World) (j : Nat) (hj : j < w.logs.length) :
     (connect cfg w).1.logs[j]? = w.logs[j]? := by
-  have happ : ∀ (x : List String), (w.logs ++ [x])[j]? = w.logs[j]? := fun x => List.getElem?_append_left hj
+  have happ : ∀ (x : List LogE), (w.logs ++ [x])[j]? = w.logs[j]? := fun x => List.getElem?_append_left hj
   unfold connect
   simp only
   split
   · simp only; exact happ _
   · split
     · simp only; exact happ _
-    · generalize hw0 : ({ w with logs := w.logs ++ [[s!"open@{w.now}"]] } : World) = w0
+    · generalize hw0 : ({ w with logs := w.logs ++ [[.opened w.now]] } : World) = w0
       have hl0 : w0.logs[j]? = w.logs[j]? := by rw [← hw0]; exact happ _
       have hne : j ≠ ({ id := w.logs.length } : ConnSt).id := Nat.ne_of_lt hj
       have h1 := onceExchange_others (seqDesc "sequences::Registration" (registrationCmd cfg)) (w.now + TIMEOUT) w0 { id := w.logs.length } j hne
